@@ -28,7 +28,7 @@ ASSUMPTIONS = ['metrics obey the triangle inequality (euclidean, manhattan, cheb
                'scenarios the float64 model classifies as tie-free',
                'stopping decisions within 1e-11 relative of the cutoff (4e-6 for float32 data, whose kernel subtracts in float32) are accepted either way']
 REACH_EXPECTED = ['cutoff_just_below_radius', 'stop_by_count', 'stop_by_cutoff', 'zero_iterations_warm_start', 'triangle_shortcut_compared',
-                  'mpi_run', 'two_approx_checked', 'prefix_checked', 'init_centers_run']
+                  'mpi_run', 'two_approx_checked', 'prefix_checked', 'init_centers_run', 'init_centers_as_list']
 
 
 def scenario(ctx):
@@ -51,8 +51,14 @@ def scenario(ctx):
         ctx.hit('init_centers_run')
     poison = t.draw(7) if (mpi and t.flag()) else 0
     spec = dict(algo='kcenters', form=form, k=k, cutoff=cutoff, tri=tri, spelling=spelling)
+    init_list = None
     if init is not None:
-        spec['init_centers'] = P.X[init].copy()
+        if t.flag():
+            init_list = [P.X[i].copy() for i in init]          # a plain list of frames
+            spec['init_centers'] = init_list
+            ctx.hit('init_centers_as_list')
+        else:
+            spec['init_centers'] = P.X[init].copy()
     ctx.scenario.update(P.describe(), setting='mpi' if mpi else 'serial', form=form, n_clusters=k, dist_cutoff=cutoff,
                         triangle=tri, init_frames=init, poison=poison)
     ctx.fp('c02', mpi, P.N, tuple(P.lengths), P.dtype, P.metric_name, form, k, cutoff, tri, tuple(init or ()),
@@ -65,6 +71,9 @@ def scenario(ctx):
         return clrun.run_serial(ctx, e, P, sp)
 
     g = run(spec)
+    if init_list is not None:
+        require(len(init_list) == len(init) and all(np.array_equal(a_, P.X[i]) for a_, i in zip(init_list, init)), 'input_modified',
+                lambda: 'the list passed as init_centers had %d entries before the call and has %d after it' % (len(init), len(init_list)))
     model, tie_free = M.greedy_run(P.X, P.model_metric, k, cutoff, init=init, tol=P.tie_tol(), cut_tol=P.cut_tol())
     check_greedy(ctx, P, g, k, cutoff, init)
     if len(g.ci) >= 2:
